@@ -245,6 +245,9 @@ func selfTest(env *fw.Env, accepted []*fw.Trace) []*fw.Trace {
 		c = next(t) // bytes nobody sent
 		c.Events[i]["len"] = c.Events[i]["len"].(int) + 1<<21
 		out = append(out, c)
+		c = next(t) // the server process died
+		c.Events = append(c.Events[:d:d], append([]fw.Event{{"ev": "Crash", "fn": "selftest"}}, c.Events[d:]...)...)
+		out = append(out, c)
 		c = next(t) // the other end never saw the closure
 		c.Events[cl]["seen"] = false
 		out = append(out, c)
@@ -307,25 +310,31 @@ func main() {
 		ID:        "C02",
 		DesignRef: "DESIGN.md §5 C02",
 		ModelJobs: func(env *fw.Env) []fw.TLCJob {
-			mc := func(name, cfg, maxs, repl, c string) fw.TLCJob {
+			mc := func(name, cfg, maxs, repl, faults, c string) fw.TLCJob {
 				return fw.TLCJob{Name: name, Module: "Bridge", Cfg: cfg, Timeout: 14 * time.Minute,
-					Consts: map[string]string{"MAXS": maxs, "REPL": repl, "CLS": c}}
+					Consts: map[string]string{"MAXS": maxs, "REPL": repl, "FAULTS": faults, "CLS": c}}
 			}
+			cov := func(j fw.TLCJob) fw.TLCJob { j.Coverage = true; return j } // action coverage (vacuity guard) in the evidence
 			small := `{"one", "Bp1"}`
+			// as-found = the code as it was found (the three named deviations modelled, clauses in their
+			// "or the deviation happened" form); as-needed = limiter waits split, forwarder snapshot,
+			// replaced source closed (strict clauses, nothing excused)
 			if env.Tier == "thorough" {
 				return []fw.TLCJob{
-					mc("mc:as-found(S=2,replace)", "Bridge_mc.cfg", "2", "TRUE", cls),
-					mc("mc:as-found(S=3)", "Bridge_mc.cfg", "3", "FALSE", cls),
-					mc("mc:split-limiter(S=2,replace)", "Bridge_fixed.cfg", "2", "TRUE", cls),
-					mc("live:as-found(S=1,replace)", "Bridge_live.cfg", "1", "TRUE", cls),
-					mc("live:as-found(S=2)", "Bridge_live.cfg", "2", "FALSE", cls),
+					mc("mc:as-found(S=2,replace)", "Bridge_mc.cfg", "2", "TRUE", "TRUE", cls),
+					mc("mc:as-found(S=3)", "Bridge_mc.cfg", "3", "FALSE", "TRUE", cls),
+					cov(mc("mc:as-needed(S=2,replace)", "Bridge_fixed.cfg", "2", "TRUE", "TRUE", cls)),
+					mc("live:as-found(S=1,replace)", "Bridge_live.cfg", "1", "TRUE", "TRUE", cls),
+					mc("live:as-found(S=2)", "Bridge_live.cfg", "2", "FALSE", "TRUE", cls),
+					mc("live:as-needed(S=1,replace)", "Bridge_live_fixed.cfg", "1", "TRUE", "TRUE", cls),
+					mc("live:as-needed(S=2,{1,32K+1})", "Bridge_live_fixed.cfg", "2", "FALSE", "TRUE", small),
 				}
 			}
 			return []fw.TLCJob{
-				mc("mc:as-found(S=2,replace,{1,32K+1})", "Bridge_mc.cfg", "2", "TRUE", small),
-				mc("mc:as-found(S=1)", "Bridge_mc.cfg", "1", "FALSE", cls),
-				mc("mc:split-limiter(S=1)", "Bridge_fixed.cfg", "1", "FALSE", cls),
-				mc("live:as-found(S=1,{1,32K+1})", "Bridge_live.cfg", "1", "FALSE", small),
+				mc("mc:as-found(S=2,replace,{1,32K+1},no faults)", "Bridge_mc.cfg", "2", "TRUE", "FALSE", small),
+				mc("mc:as-found(S=1)", "Bridge_mc.cfg", "1", "FALSE", "TRUE", cls),
+				mc("mc:as-needed(S=1,replace)", "Bridge_fixed.cfg", "1", "TRUE", "TRUE", cls),
+				mc("live:as-found(S=1,replace,{1,32K+1},no faults)", "Bridge_live.cfg", "1", "TRUE", "FALSE", small),
 			}
 		},
 		GenJobs: func(env *fw.Env) []fw.TLCJob {
@@ -338,7 +347,7 @@ func main() {
 				devlim = "FALSE"
 			}
 			gen := func(name, maxs, lims, c, faults, repl, ext string) fw.TLCJob {
-				return fw.TLCJob{Name: name, Module: "Bridge", Cfg: "Bridge_gen.cfg", Workers: 4,
+				return fw.TLCJob{Name: name, Module: "Bridge", Cfg: "Bridge_gen.cfg", Workers: 1, // one worker: breadth-first order (and so the script chosen per state) is reproducible
 					Consts: map[string]string{"MAXS": maxs, "LIMS": lims, "CLS": c, "FAULTS": faults, "REPL": repl, "EXT": ext, "DEVLIM": devlim}}
 			}
 			sim := func(n int) fw.TLCJob {
@@ -374,14 +383,18 @@ func main() {
 		Rule: "transition coverage of the bridge model: one script per (state, step) of the model with <=1 write (all limit classes, size classes, " +
 			"faults, third-party close), <=2 writes ({1, 32K+1}) and source replacement; the core set (every limit class x size class x direction, " +
 			"attach before/after the first bytes, read and written gate by gate) always, a seeded share of the rest, plus random deep scripts (<=3 writes); " +
-			"each gated script also free running for a share; non-trivial = a trace with a delivery or closure observation",
+			"each gated script also free running for a share (free-running scripts in which an end is already closed or failed when the target attaches are executed 200 times: goroutine-start race); " +
+			"non-trivial = a trace with a delivery or closure observation",
 		Assumptions: []string{
 			"model buffer BUF=3 stands for the 32 KiB copy buffer; size classes map to {1, 32K-1, 32K, 32K+1, 64K (gated or paced) / 1 MiB (free, unpaced)} bytes",
-			"limit classes map to {0, 16383 B/s (burst 32766 < 32767), 16384 B/s (burst = 32 KiB), 256 MiB/s}; at most 7 model units (~76 KiB) are sent under a pacing limit",
+			"limit classes map to {0, 16383 B/s (burst 32766 < 32767), 16384 B/s (burst = 32 KiB), 256 MiB/s}; at most 5 model units (~54 KiB) are sent under a pacing limit (limiter waits stay below ~1.5 s)",
 			"bounded time = 5 s: closure/forgetting are measured from the first close/failure (or the attach, if later); a drain gives up after 5 s without any byte moving",
 			"a behaviour during which a 5 ms sleeper woke more than 1.6 s late is discarded as inconclusive",
 			"closed early is read from the trace: completeness is demanded at drains while both ends are open, and for a graceful close after the last write with a silent peer",
 			"a fake connection preserves the write boundaries of its end; writes to a closed/failed end fail; a failed end drops unread bytes",
+			"source replacement is outside the statement's wording: the pipe clauses are kept for the logical source end only after a clean handover (nothing unread on the old connection); closure/forgetting are judged as for any tunnel",
+			"behaviours run in worker child processes; a worker that dies of a Go panic whose topmost frame is tunnox-core code is the observation Crash{fn} (clause Crash), any other worker death is a harness failure (exit 2)",
+			"the generator follows the limiter variant (error / split waits on n > burst) that a probe on the real code shows; both variants are model-checked",
 		},
 		TrustedBase: []string{"TLC", "spec/BridgeTrace.tla as the reading of the statement", "fake connections and byte comparison in drivers/c02",
 			"go:linkname binding to session.(*SessionManager).startSourceBridge"},
